@@ -3,7 +3,7 @@ From Coq Require Import List Arith NArith.
 Import ListNotations.
 From Coq Require Import Lia.
 From Exmex.Model Require Import Base Lexer.
-From Exmex.Proofs Require Import LexerFacts LongestMatch LexSpaced LexFlex.
+From Exmex.Proofs Require Import LexerFacts LongestMatch LexSpaced LexFlex LexLocal.
 Open Scope nat_scope.
 
 (* For EVERY operator table (so also tables whose names are prefixes of each other), data type and literal matcher. *)
@@ -153,3 +153,64 @@ Print Assumptions C13_canonical_text_tokenizes.
 Print Assumptions C13_operator_found_by_its_name.
 Print Assumptions C13_free_spacing_text_tokenizes.
 Print Assumptions C13_operator_found_in_front_of_a_terminator.
+
+(* ... and with NO terminator asked for (Proofs/LexLocal.v): the tokenizer is decided locally.  A text cut into pieces -- numbers,
+   parentheses, braced variables, operator names, names of constants, BARE variable names -- with any number of spaces behind
+   each (also none) is tokenized to the tokens of the pieces whenever every piece is readable in front of the text that
+   actually follows it: `2*x-sin(y)+PI`.  Sufficient local conditions: a bare name is readable in front of a character that
+   cannot continue a name when the literal matcher and the operator search find nothing there; in a table with distinct names
+   an operator is readable wherever it matches and no operator with a longer name does. *)
+Theorem C13_locally_readable_text_tokenizes :
+  forall (D : Type) (C : carrier D) (tb : optable) (is_literal : str -> option nat) (items : list (piece (D:=D) * nat)),
+  all_readable C tb is_literal items [] ->
+  tokenize C tb is_literal (ptexts C tb items) = Ok (map (ptok C) (map fst items)).
+Proof. exact @tokenize_local. Qed.
+Theorem C13_bare_variable_is_readable :
+  forall (D : Type) (C : carrier D) (tb : optable) (is_literal : str -> option nat) (x rest : str),
+  is_exact_var_name x = true -> name_end rest ->
+  is_literal (x ++ rest) = None -> find_ops tb (x ++ rest) = None ->
+  readable C tb is_literal (PBare x) rest.
+Proof. exact @bare_variable_readable. Qed.
+Theorem C13_operator_is_readable_where_it_is_the_longest_match :
+  forall (D : Type) (C : carrier D) (tb : optable) (is_literal : str -> option nat) (k : nat) (rest : str),
+  (forall i j, i < length tb -> j < length tb -> repr (op_of tb i) = repr (op_of tb j) -> i = j) ->
+  k < length tb -> starts_plain (repr (op_of tb k)) -> oconst (op_of tb k) = false ->
+  is_literal (repr (op_of tb k) ++ rest) = None ->
+  op_matches tb (repr (op_of tb k) ++ rest) k = true ->
+  (forall k', k' < length tb -> op_matches tb (repr (op_of tb k) ++ rest) k' = true ->
+              length (repr (op_of tb k')) <= length (repr (op_of tb k))) ->
+  readable C tb is_literal (PT (TOp k)) rest.
+Proof. exact @operator_readable. Qed.
+Theorem C13_longest_matching_operator_is_found :
+  forall (tb : optable) (rest : str) (k : nat),
+  (forall i j, i < length tb -> j < length tb -> repr (op_of tb i) = repr (op_of tb j) -> i = j) ->
+  k < length tb -> op_matches tb rest k = true ->
+  (forall k', k' < length tb -> op_matches tb rest k' = true -> length (repr (op_of tb k')) <= length (repr (op_of tb k))) ->
+  find_ops tb rest = Some k.
+Proof. exact find_ops_unique_longest. Qed.
+
+(* non-vacuity:  2*x-sin(y)+PI  without a single space, bare variable names, a constant *)
+Definition ex13_tb2 : optable :=
+  [ {| repr := [43]%N; obin := Some {| prio := 0; comm := true |}; ounary := true; oconst := false |};
+    {| repr := [42]%N; obin := Some {| prio := 2; comm := true |}; ounary := false; oconst := false |};
+    {| repr := [45]%N; obin := Some {| prio := 0; comm := false |}; ounary := true; oconst := false |};
+    {| repr := [115;105;110]%N; obin := None; ounary := true; oconst := false |};
+    {| repr := [80;73]%N; obin := None; ounary := false; oconst := true |} ].
+Definition ex13_pieces : list (piece (D:=term) * nat) :=
+  [ (PT (TNum (Lit [50]%N)), 0); (PT (TOp 1), 0); (PBare [120]%N, 0); (PT (TOp 2), 0); (PT (TOp 3), 0); (PT TOpen, 0);
+    (PBare [121]%N, 0); (PT TClose, 0); (PT (TOp 0), 0); (PConst 4, 0) ].
+Example C13_example_no_spaces :
+  ptexts term_carrier ex13_tb2 ex13_pieces = [50;42;120;45;115;105;110;40;121;41;43;80;73]%N /\
+  all_readable term_carrier ex13_tb2 is_numeric_text ex13_pieces [] /\
+  tokenize term_carrier ex13_tb2 is_numeric_text (ptexts term_carrier ex13_tb2 ex13_pieces)
+    = Ok [TNum (Lit [50]%N); TOp 1; TVar [120]%N; TOp 2; TOp 3; TOpen; TVar [121]%N; TClose; TOp 0; TNum (cst term_carrier 4)].
+Proof.
+  assert (H : all_readable term_carrier ex13_tb2 is_numeric_text ex13_pieces []).
+  { cbn [all_readable ex13_pieces readable]. repeat split; try reflexivity; eexists _, _; split; reflexivity. }
+  split; [reflexivity|split; [exact H|]]. exact (tokenize_local term_carrier ex13_tb2 is_numeric_text ex13_pieces H).
+Qed.
+
+Print Assumptions C13_locally_readable_text_tokenizes.
+Print Assumptions C13_bare_variable_is_readable.
+Print Assumptions C13_operator_is_readable_where_it_is_the_longest_match.
+Print Assumptions C13_longest_matching_operator_is_found.
